@@ -156,6 +156,22 @@ def _self_receiver(c):
     return bool(ty) and (ty == tseg or tseg in ("Self",) or (c.res and ("::" + ty + "::") in re.sub(r"<[^<>]*>", "", c.res)))
 
 
+def is_getter(b, c):
+    """a call of a workspace function that takes nothing but `&self` and returns a value: how often it is evaluated is not behaviour
+    (`let store = self.shared.store();` hoisted out of a loop)"""
+    if len(c.args) != 1 or not c.atys or not _self_receiver(c):
+        return False
+    rty = str(c.atys[0]).strip()
+    if not rty.startswith("&") or rty.startswith("&mut"):
+        return False
+    base = c.res if (c.res and c.res.startswith("ckb_")) else c.callee
+    if not re.match(r"^<?ckb_", base):
+        return False
+    locs = b.rec.get("locals") or []
+    dty = locs[c.dest[0]] if c.dest and c.dest[0] < len(locs) else ""
+    return not (dty in ("()", "!") or re.match(r"^(core::result::|std::result::)?Result<\(\)", str(dty)))
+
+
 def call_entry(b, c, S):
     """significant call with the forms of its (non-receiver) arguments"""
     name = through_wrappers(c, S) if S is not None else significant(c)
@@ -254,6 +270,27 @@ def log_region(b):
                     out |= {y for y in range(len(b.blocks)) if b.dominates(en, y)}
                 break
             x = t.get("t")
+    # `debug_assert!(c)` is `if cfg!(debug_assertions) { assert!(c) }`: the evaluation of `c` and the panic are reachable from the enabled
+    # side only, up to the block both sides join in; a debug assertion never changes what a run that does not panic does
+    for i, blk in enumerate(b.blocks):
+        t = blk["t"]
+        if t.get("k") == "switch" and re.search(r"cfg>debug_assert(_eq|_ne)?$", str(t.get("mac") or "")) and t.get("vals") and t.get("else") is not None:
+            join = set()
+            for v in t["vals"]:          # the disabled side is an empty goto chain into the block both sides join in
+                j = v[1]
+                join.add(j)
+                for _ in range(6):
+                    tj = b.blocks[j]["t"]
+                    if tj.get("k") == "goto" and tj.get("t") is not None:     # (`_x = ()` is all such a block holds)
+                        j = tj["t"]
+                        join.add(j)
+                    else:
+                        break
+            en = t["else"]
+            if en not in join:
+                reg = b.reachable(en, avoid=join)
+                if not any(b.blocks[x]["t"].get("k") == "return" for x in reg):      # never swallow a path that returns
+                    out |= reg
     return out
 
 
@@ -268,6 +305,7 @@ def fingerprint(root, bodies, S=None):
 def _fingerprint(root, bodies, S=None):
     dec = Counter()
     calls = Counter()
+    getters = set()
     for b in bodies:
         try:
             logb = log_region(b)
@@ -320,7 +358,10 @@ def _fingerprint(root, bodies, S=None):
         except Exception as e:  # a body the form analysis cannot handle is fingerprinted by its calls only
             dec["<analysis-error:%s>" % type(e).__name__] += 1
         for c, s in sig_calls:
-            calls[call_entry(b, c, S)] += 1
+            ce = call_entry(b, c, S)
+            if is_getter(b, c):
+                getters.add(ce)
+            calls[ce] += 1
         # values of workspace types built here: struct / enum literals with the forms of their fields (MIR lists fields in declaration order)
         for bi, blk in enumerate(b.blocks):
             if bi in logb:
@@ -336,6 +377,8 @@ def _fingerprint(root, bodies, S=None):
                         forms = ["?"]
                     name = "new:" + str(rv["adt"]).split("::")[-1] + (("::" + rv["variant"]) if rv.get("variant") and rv.get("variant") != str(rv["adt"]).split("::")[-1] else "")
                     calls[jd([name, rv.get("fields") or [], forms])] += 1
+    for g in getters:       # presence only
+        calls[g] = 1
     return {"dec": dict(dec), "calls": dict(calls)}
 
 
